@@ -133,7 +133,7 @@ class DecodeS1F14Abs:
     for a malformed body (ghost message.g_malformed)."""
 
     abstract = True
-    returns = Obj(AbsDecoded, COMMACK=Obj(AbsItem, g_value=Same("message.g_commack")))
+    returns = Obj(AbsDecoded, COMMACK=Obj(AbsItem, g_value=Same("message.g_commack"), g_empty=Same("message.g_commack_empty")))
 
     def raises(self, message):
         return {ValueError: message.g_malformed}
@@ -141,11 +141,16 @@ class DecodeS1F14Abs:
 
 @contract("spec.ext:AbsItem.get", "C07", name="ItemGetAbs")
 class ItemGetAbs:
+    """ASSUMED: a binary item of one byte reads as that number; an EMPTY binary item (a well-formed body whose COMMACK has
+    no byte) reads as b"" - which is not the acknowledge code 0."""
+
     abstract = True
-    returns = Int
+    returns = OneOf(Int, Const(b""))
 
     def ensures(self, result):
-        return result == self.g_value
+        if isinstance(result, bytes):
+            return self.g_empty
+        return not self.g_empty and result == self.g_value
 
 
 @contract("secsgem.secs.handler:SecsHandler._handle_stream_function", "C07", name="ApplicationGateAbs")
@@ -165,6 +170,7 @@ STATES = [CM.DISABLED, CM.NOT_COMMUNICATING, CM.WAIT_CRA, CM.WAIT_DELAY, CM.COMM
 def gem_message():
     m = message_obj(HsmsSType.DATA_MESSAGE)
     m.fields["g_commack"] = Int
+    m.fields["g_commack_empty"] = Bool
     m.fields["g_malformed"] = Bool
     return m
 
@@ -202,7 +208,7 @@ class OnMessageReceived:
         is14 = h._stream == 1 and h._function == 14
         out = {"callbacks-only-when-communicating": handled == (1 if state is CM.COMMUNICATING else 0)}
         if state is CM.WAIT_CRA:
-            accepted14 = is14 and not message.g_malformed and message.g_commack == 0
+            accepted14 = is14 and not message.g_malformed and not message.g_commack_empty and message.g_commack == 0
             out["communicating-only-by-accepted-s1f14-or-accepted-s1f13"] = (cur is CM.COMMUNICATING) == ((is13 and self.g_commack == 0) or accepted14)
             out["refused-or-undecodable-s1f14-goes-to-wait-delay"] = implies(is14 and not accepted14, lambda: cur is CM.WAIT_DELAY)
             out["other-messages-change-nothing"] = implies(not is13 and not is14, lambda: cur is CM.WAIT_CRA and n == 0)
@@ -244,7 +250,8 @@ class OnMessageReceived:
                     ("S1F13, denied", 1, (1, 13, True, A.S1F13_EQ if host else A.S1F13_HOST)),
                     ("S1F14 COMMACK 0", 0, (1, 14, False, A.S1F14_OK)),
                     ("S1F14 COMMACK 1", 0, (1, 14, False, A.S1F14_DENY)),
-                    ("S1F14 undecodable", 0, (1, 14, False, b"\\x01\\x05")),
+                    ("S1F14 undecodable", 0, (1, 14, False, bytes([0x01, 0x05]))),
+                    ("S1F14 empty COMMACK", 0, (1, 14, False, bytes([0x01, 0x02, 0x21, 0x00, 0x01, 0x00]))),
                     ("S1F1 W", 0, (1, 1, True, b""))):
                 handler, proto, conn, calls = A.reach(kind, state, policy)
                 try:
@@ -257,7 +264,7 @@ class OnMessageReceived:
                         failed.append(f"{label} in {state}: handed to the stream/function callbacks {calls}")
                     if state == "WAIT_CRA":
                         want = {"S1F13, accepted": "COMMUNICATING", "S1F14 COMMACK 0": "COMMUNICATING", "S1F13, denied": "WAIT_CRA",
-                                "S1F14 COMMACK 1": "WAIT_DELAY", "S1F14 undecodable": "WAIT_DELAY", "S1F1 W": "WAIT_CRA"}[label]
+                                "S1F14 COMMACK 1": "WAIT_DELAY", "S1F14 undecodable": "WAIT_DELAY", "S1F14 empty COMMACK": "WAIT_DELAY", "S1F1 W": "WAIT_CRA"}[label]
                         if after != want:
                             failed.append(f"{label} in WAIT_CRA: state {after}, expected {want}")
                         if label.startswith("S1F13") and replies != [(1, 14, 0x33445566)]:
